@@ -700,6 +700,17 @@ pub fn c16_cases(rng: &mut Rng, tier: &str) -> (Vec<Case>, bool) {
             cases.push(case_from(w, checks, "cap-from-the-prompt".into(), true, format!("stopped {} GOSUBs deep, then {}", depth, probe)));
         }
     }
+    // every parameter of a function is bound through the checked store: an argument of the wrong kind in ANY position fails
+    for (def, call) in [("DEF FNA(X, Y) = X", "PRINT FNA(1, \"boop\")"), ("DEF FNB(X, Y$, Z$) = Z$", "PRINT FNB(1, \"a\", 7)"), ("DEF FNC(A$, B) = 1", "PRINT FNC(\"s\", \"t\")"), ("DEF FND(A, B, C) = A", "X = FND(1, 2, \"z\")"), ("DEF FNE(A$, B$) = A$", "PRINT FNE(\"a\", 2)")] {
+        let mut w = Walk::new(false, false);
+        w.start(&format!("10 {}", def));
+        w.start("RUN");
+        w.start(call);
+        let pi = w.last();
+        w.op("snap");
+        w.op("take");
+        cases.push(case_from(w, vec![format!("reply-starts {} err_TypeMismatch", pi), "snap-caps".into()], "ill-typed-later-argument".into(), true, format!("{} || {}", def, call)));
+    }
     // arrays whose cell count lies just around the cap of 10000, for every way of splitting it over two to four axes
     {
         let mut shapes: Vec<Vec<usize>> = vec![];
@@ -789,6 +800,32 @@ pub fn c10_cases(rng: &mut Rng, tier: &str) -> (Vec<Case>, bool) {
             ranges.push((a, w.last()));
         }
         cases.push(case_from(w, vec![format!("transcript-eq {}-{} {}-{}", ranges[0].0, ranges[0].1, ranges[1].0, ranges[1].1), "err-then-idle".into()], "run-after-a-run-that-hit-a-cap".into(), true, prog.join(" | ")));
+    }
+    // what an earlier run stored - however large - does not count against the next run
+    for (first, second) in [(40_000usize, 40_000usize), (70_000, 10), (10, 70_000), (33_000, 33_000)] {
+        let mut w = Walk::new(false, false);
+        w.start("10 INPUT A$ : INPUT B$");
+        w.start("20 PRINT \"GOT IT\"; LEN9");
+        w.start("RUN");
+        let mut nr = 0;
+        w.drive(&["a".repeat(first), "c".repeat(first / 2)], &mut nr, 20, false);
+        w.state();
+        let a = w.ops.len();
+        w.start("RUN");
+        let mut nr = 0;
+        w.drive(&["b".repeat(second), "d".repeat(second / 2)], &mut nr, 20, false);
+        w.state();
+        let a2 = w.last();
+        w.op("new 0 0");
+        w.start("10 INPUT A$ : INPUT B$");
+        w.start("20 PRINT \"GOT IT\"; LEN9");
+        let b = w.ops.len();
+        w.start("RUN");
+        let mut nr = 0;
+        w.drive(&["b".repeat(second), "d".repeat(second / 2)], &mut nr, 20, false);
+        w.state();
+        let b2 = w.last();
+        cases.push(case_from(w, vec![format!("transcript-eq {}-{} {}-{}", a, a2, b, b2), "err-then-idle".into()], "long-replies-in-an-earlier-run".into(), true, format!("replies of {} then {} characters", first, second)));
     }
     for k in 0..n {
         let mut p = if k % 5 == 4 {
@@ -1016,6 +1053,36 @@ pub fn c11_cases(rng: &mut Rng, tier: &str) -> (Vec<Case>, bool) {
     let n = if tier == "thorough" { 4000 } else { 400 };
     let mut cases = vec![];
     let opts = GenOpts { allow_failures: false, allow_else_resume: false, ..Default::default() };
+    // ANY number of edits between the definition and the call: the function is gone after the first and stays gone (a count
+    // that comes round again - 2^8, 2^16 edits - must not bring it back)
+    for edits in [1usize, 2, 255, 256, 257, 512, 65535, 65536, 65537] {
+        let mut w = Walk::new(false, false);
+        w.start("1 DEF FNZ(Q) = Q + 1000");
+        w.start("2 FOR L9 = 1 TO 3 : GOSUB 4");
+        w.start("3 END");
+        w.start("4 PRINT FNZ(1) : STOP");
+        w.start("RUN");
+        let mut nr = 0;
+        w.drive(&[], &mut nr, 20, false);
+        w.op("take");
+        for i in 0..edits {
+            w.start(["30 REM a", "30 REM b", "40 PRINT 1", "40"][i % 4]);
+        }
+        w.op("snap");
+        let si = w.last();
+        let probe = ["PRINT FNZ(1)", "CONT", "RETURN", "NEXT L9"][edits % 4];
+        w.start(probe);
+        let pi = w.last();
+        w.op("take");
+        let ti = w.last();
+        let check = match edits % 4 {
+            0 => format!("reply-is {} P:{}", ti, crate::imp::hex("0\n")),
+            1 => format!("reply-starts {} err_CannotContinue", pi),
+            2 => format!("reply-starts {} err_ReturnWithoutGosub", pi),
+            _ => format!("reply-starts {} err_NextWithoutFor", pi),
+        };
+        cases.push(case_from(w, vec![check, format!("snap-after-edit-clean {}", si)], "many-edits".into(), true, format!("{} edits between the run and {}", edits, probe)));
+    }
     for _ in 0..n {
         let mut p = program(rng, &opts);
         // give it things to be in the middle of
@@ -1109,7 +1176,7 @@ pub fn c11_cases(rng: &mut Rng, tier: &str) -> (Vec<Case>, bool) {
             0 => ("5 REM added".to_string(), true),
             1 => (format!("{} PRINT \"replaced\"", p.lines[rng.below(p.lines.len())].0), true),
             // delete - half of the time the line the run last jumped to (the subroutine entry, the STOP line, the RETURN line)
-            2 => (if rng.chance(1, 2) { rng.pick(&["950", "951", "960", "940"]).to_string() } else { format!("{}", p.lines[rng.below(p.lines.len())].0) }, true),
+            2 => (if rng.chance(1, 2) { rng.pick(&["950", "951", "960", "940", "1", "1", "2", "3", "4"]).to_string() } else { format!("{}", p.lines[rng.below(p.lines.len())].0) }, true),
             3 => ("2 DATA 999, 888".to_string(), true),
             _ => (format!("{} PRINT \"unterminated", p.lines[rng.below(p.lines.len())].0), false),
         };
@@ -1130,7 +1197,7 @@ pub fn c11_cases(rng: &mut Rng, tier: &str) -> (Vec<Case>, bool) {
         // after a deletion: a jump to the line that is gone must say so (also when the run had last jumped exactly there)
         let deleted: Option<String> = if edit_kind == 2 { Some(edit.trim().to_string()) } else { None };
         let jump_probe = deleted.as_ref().map(|n| format!("{} {}", rng.pick(&["GOTO", "GOSUB", "IF 1 THEN"]), n));
-        let probe = if jump_probe.is_some() && rng.chance(1, 2) { 9 } else { probe };
+        let probe = if deleted.as_deref() == Some("1") && rng.chance(2, 3) { 4 } else if jump_probe.is_some() && rng.chance(1, 2) { 9 } else { probe };
         let probe_text = match probe {
             9 => jump_probe.as_deref().unwrap(),
             0 => "CONT",
@@ -1263,6 +1330,10 @@ pub fn c17_cases(rng: &mut Rng, tier: &str) -> (Vec<Case>, bool) {
         &["10 C(3) = C(3) + 1", "20 A(1) = A(2)", "30 DEF FNG(K) = T(K) + 1", "40 T(2) = FNG(1)", "50 PRINT C(3); A(1); T(2)"],
         &["10 DEF FNA(X) = FNB(X) + FNC(X)", "20 DEF FNB(Y) = X * Y + Z", "30 DEF FNC(Z) = X + Y + Z", "40 PRINT FNA(2)", "50 Y = 1 : PRINT FNA(3)"],
         &["10 FOR I = 1 TO 2 : PRINT J; N$(I) : NEXT I", "20 INPUT K", "30 PRINT K + L"],
+        // line number 0 is a numbered line like any other
+        &["0 PRINT \"A\"", "5 N = N + 1", "10 PRINT \"B\"", "20 IF N < 2 THEN GOTO 0", "30 PRINT \"C\""],
+        &["0 PRINT \"ONLY\""],
+        &["0 GOSUB 18446744073709551615", "1 END", "18446744073709551615 PRINT Q : RETURN"],
     ];
     for k in 0..n + shaped.len() {
         let p = if k < shaped.len() {
@@ -1323,7 +1394,47 @@ pub fn c17_cases(rng: &mut Rng, tier: &str) -> (Vec<Case>, bool) {
         }
         // trace records name the line being executed; a warning names an undeclared variable/array use
         checks.push(format!("trace-lines-exist {}-{}", ranges[3].0, ranges[3].1));
+        if k < shaped.len() {
+            let want = match shaped[k][0] {
+                "0 PRINT \"A\"" => "0,5,10,20,0,5,10,20,30",
+                "0 PRINT \"ONLY\"" => "0",
+                "0 GOSUB 18446744073709551615" => "0,18446744073709551615,1",
+                _ => "",
+            };
+            if !want.is_empty() {
+                checks.push(format!("trace-seq {}-{} {}", ranges[2].0, ranges[2].1, want));
+                checks.push(format!("trace-seq {}-{} {}", ranges[3].0, ranges[3].1, want));
+            }
+        }
         cases.push(case_from(w, checks, format!("{}{}", if via_command { "cmd:" } else { "api:" }, feature_tag(&p)), true, p.text().replace('\n', " | ")));
+    }
+    // programs in which every line first prints its own number: whatever way execution takes (jumps back and forth, to the
+    // lowest and the highest line number there is, subroutines), the trace names exactly the lines that print
+    for _ in 0..(n / 4).max(20) {
+        let pool: [u64; 10] = [0, 1, 2, 9, 10, 100, 255, 256, 65535, 18446744073709551615];
+        let mut nums: Vec<u64> = pool.iter().cloned().filter(|_| rng.chance(1, 2)).collect();
+        if nums.len() < 2 {
+            nums = vec![0, 10];
+        }
+        let mut w = Walk::new(false, true);
+        for (i, l) in nums.iter().enumerate() {
+            let tail = match rng.below(6) {
+                0 => format!(" : IF C < 7 THEN GOTO {}", rng.pick(&nums)),
+                1 => format!(" : IF C < 7 THEN GOSUB {}", rng.pick(&nums)),
+                2 => " : IF C > 2 THEN RETURN".to_string(),
+                3 if i + 1 < nums.len() => format!(" : ON9 = 1 : GOTO {}", nums[i + 1]),
+                _ => String::new(),
+            };
+            w.start(&format!("{} PRINT \"#{}\" : C = C + 1{}", l, l, tail));
+        }
+        let a = w.ops.len();
+        w.start("RUN");
+        let mut nr = 0;
+        w.drive(&[], &mut nr, 200, false);
+        w.state();
+        let b = w.last();
+        let show = w.ops.iter().filter_map(|o| o.strip_prefix("start ")).filter_map(crate::imp::unhex).collect::<Vec<_>>().join(" | ");
+        cases.push(case_from(w, vec![format!("trace-eq-marks {}-{}", a, b)], "lines-print-their-number".into(), true, show));
     }
     // a warning exactly when an undeclared variable is read or an array that does not exist yet is touched - programs
     // whose number of warnings is known in advance (a refused INPUT reply touches nothing)
@@ -1451,6 +1562,9 @@ pub fn c09_cases(rng: &mut Rng, tier: &str) -> (Vec<Case>, bool) {
         (&["10 GOTO 20", "20 DATA 1", "21 DATA 2", "22 DATA 3", "23 DATA 4", "30 GOTO 40", "40 PRINT 4"], &["RUN"], 7),
         (&["10 GOSUB 100", "20 PRINT \"M\"", "30 END", "100 GOSUB 200 : RETURN", "200 GOSUB 300 : RETURN", "300 RETURN"], &["RUN"], 10),
         (&["10 GOSUB 100 : GOSUB 100", "20 END", "100 GOSUB 200 : RETURN", "200 RETURN"], &["RUN"], 12),
+        (&["10 PRINT \"A\"::PRINT \"B\":PRINT \"C\""], &["RUN"], 6),
+        (&["10 :::PRINT \"X\"::::", "20 PRINT \"Y\""], &["RUN"], 9),
+        (&["10 IF 1 THEN ::PRINT \"Z\"", "20 ::"], &["RUN"], 5),
     ];
     for (prog, typed, want) in counted {
         for (ww, tt) in [(false, false), (false, true)] {
@@ -1762,6 +1876,8 @@ pub fn c08_cases(rng: &mut Rng, tier: &str) -> (Vec<Case>, bool) {
     let long_b = format!("7{}", " ".repeat(2000));
     let long_c = format!("{},x", "b".repeat(3000));
     let mut all_replies: Vec<&str> = reply_texts.to_vec();
+    // a reply is taken as handed over: a carriage return at its end is part of an open-quoted item
+    all_replies.extend(["\"abc\r", "\"\r", "abc\r", "5\r", "\"a b\"\r", "\"x\r\n", "q\n", "\"tab\t"]);
     all_replies.extend([long_a.as_str(), long_e.as_str(), long_q.as_str(), long_n.as_str(), long_b.as_str(), long_c.as_str()]);
     let reply_texts: &[&str] = &all_replies;
     for _ in 0..n {
@@ -1945,6 +2061,40 @@ pub fn c08_cases(rng: &mut Rng, tier: &str) -> (Vec<Case>, bool) {
                 ];
                 cases.push(case_from(w, checks, "input-vs-assignment".into(), true, text.replace('\n', " | ")));
             }
+        }
+    }
+    // what is stored is the first item of the reply AS HANDED OVER: an item that opens a quote and never closes it runs to the
+    // very end of the reply, whatever the last character is; an unquoted item is trimmed of blanks of every kind
+    for (reply, stored) in [
+        ("\"abc\r", "abc\r"), ("\"\r", "\r"), ("abc\r", "abc"), ("\"a b\"\r", "a b"), ("\"x\r\n", "x\r\n"), ("\"tab\t", "tab\t"), (" \"  lead", "  lead"), ("\"q\" ", "q"),
+        ("\"abc \u{a0}", "abc \u{a0}"), ("x\u{a0}", "x"), ("\"end \n", "end \n"), ("\" ", " "), ("\"\u{0}", "\u{0}"), ("\"a\u{85}", "a\u{85}"), ("\"a\u{2028}", "a\u{2028}"), ("\"a\u{c}", "a\u{c}"), ("\"a\u{b}", "a\u{b}"),
+        ("  two words  ", "two words"), ("\t\"t\r", "t\r"),
+    ] {
+        for prog in ["10 INPUT A$ : PRINT \"[\"; A$; \"]\"", "10 INPUT N$(2)\n20 B$ = N$(2)\n30 PRINT \"[\"; B$; \"]\""] {
+            let mut w = Walk::new(false, false);
+            for l in prog.split('\n') {
+                w.start(l);
+            }
+            w.start("RUN");
+            let mut guard = 0;
+            while w.state() == "Running" && guard < 10 {
+                w.op("cont");
+                guard += 1;
+            }
+            w.op("take");
+            w.reply(reply);
+            let mut guard = 0;
+            let mut shown = None;
+            while w.state() == "Running" && guard < 10 {
+                w.op("cont");
+                w.op("take");
+                if w.replies.last().map(|r| r.contains("P:")).unwrap_or(false) {
+                    shown = Some(w.last());
+                }
+                guard += 1;
+            }
+            let ti = shown.unwrap_or(w.last());
+            cases.push(case_from(w, vec![format!("take-is {} P:{}", ti, crate::imp::hex(&format!("[{}]\n", stored)))], "stored-as-handed-over".into(), true, format!("{} || reply {:?}", prog.replace('\n', " | "), reply)));
         }
     }
     // an INPUT run at the prompt of a stopped program stores its reply like an assignment and leaves the program resumable
